@@ -36,7 +36,21 @@ func (u uMarshaler) MarshalJSON() ([]byte, error) {
 	if u.ID < 0 {
 		return []byte(`"e"`), errors.New("user error")
 	}
+	if u.ID >= 100 {
+		return wideByID(u.ID), nil
+	}
 	return userBytes[u.ID%len(userBytes)], nil
+}
+
+// wideByID is an object of 60..89 members (half of the IDs: long names) that repeats one of its
+// members at the end, the repeated index running over all members with the ID (a few IDs: none)
+func wideByID(id int) []byte {
+	n := 60 + id%30
+	dup := (id / 2) % (n + 3)
+	if dup >= n {
+		dup = -1
+	}
+	return wideObject(newRng(uint64(id), 77), n, id%2 == 1, dup, id%3 == 0)
 }
 
 type uText struct{ ID int }
@@ -62,6 +76,24 @@ func (u uAppender) AppendText(b []byte) ([]byte, error) {
 type uMarshalerTo struct{ ID int }
 
 func (u uMarshalerTo) MarshalJSONTo(e *jsontext.Encoder) error {
+	if u.ID >= 100 { // a wide object with a repeated name, token by token; errors are not looked at
+		d := jsontext.NewDecoder(bytes.NewReader(wideByID(u.ID)), jsontext.AllowDuplicateNames(true))
+		for {
+			tok, err := d.ReadToken()
+			if err != nil {
+				break
+			}
+			e.WriteToken(tok)
+		}
+		for e.StackDepth() > 0 { // whatever was refused: close what is open
+			if e.WriteToken(jsontext.EndObject) != nil && e.WriteToken(jsontext.EndArray) != nil {
+				if e.WriteToken(jsontext.Null) != nil {
+					break
+				}
+			}
+		}
+		return nil
+	}
 	switch u.ID % 12 {
 	case 0:
 		return e.WriteToken(jsontext.Int(1))
@@ -170,12 +202,24 @@ func (o arshalOpts) options(r *rand.Rand) []jsonv2.Options {
 		out = append(out, jsontext.EscapeForHTML(true), jsontext.EscapeForJS(true))
 	case "multiline":
 		out = append(out, jsontext.Multiline(true))
+	case "v2": // every option present, with its default value
+		out = append(out, jsonv2.DefaultOptionsV2())
+	case "v1v2": // the v1 defaults cancelled again
+		out = append(out, jsonv1.DefaultOptionsV1(), jsonv2.DefaultOptionsV2())
+	case "allfalse": // options given explicitly as false are not the same as options that are set
+		out = append(out, jsonv2.StringifyNumbers(false), jsonv2.Deterministic(false), jsonv2.FormatNilSliceAsNull(false), jsonv2.FormatNilMapAsNull(false),
+			jsonv2.OmitZeroStructFields(false), jsonv2.MatchCaseInsensitiveNames(false), jsonv2.RejectUnknownMembers(false),
+			jsonv1.FormatByteArrayAsArray(false), jsonv1.FormatBytesWithLegacySemantics(false), jsonv1.FormatDurationAsNano(false), jsonv1.OmitEmptyWithLegacySemantics(false),
+			jsonv1.MergeWithLegacySemantics(false), jsonv1.StringifyWithLegacySemantics(false), jsonv1.UnmarshalArrayFromAnyLength(false), jsonv1.CallMethodsWithLegacySemantics(false),
+			jsonv1.ParseBytesWithLooseRFC4648(false), jsonv1.ParseTimeWithLooseRFC3339(false), jsonv1.ReportErrorsWithLegacySemantics(false),
+			jsontext.EscapeForHTML(false), jsontext.EscapeForJS(false), jsontext.PreserveRawStrings(false), jsontext.CanonicalizeRawInts(false), jsontext.CanonicalizeRawFloats(false),
+			jsontext.ReorderRawObjects(false), jsontext.SpaceAfterColon(false), jsontext.SpaceAfterComma(false), jsontext.Multiline(false))
 	}
 	return out
 }
 
 var symmetricOptSets = []arshalOpts{{Name: "default"}, {Name: "stringify"}, {Name: "deterministic"}, {Name: "v1", AI: true, AD: true}, {Name: "nilasnull"},
-	{Name: "legacy-bytes"}, {Name: "nano"}, {Name: "escape"}, {Name: "multiline"}, {Name: "omitzero"}, {Name: "bytearray"}, {Name: "loose"}, {Name: "legacy-omitempty"}}
+	{Name: "legacy-bytes"}, {Name: "nano"}, {Name: "escape"}, {Name: "multiline"}, {Name: "omitzero"}, {Name: "bytearray"}, {Name: "loose"}, {Name: "legacy-omitempty"}, {Name: "v2"}, {Name: "v1v2"}, {Name: "allfalse"}}
 
 // ------------------------------------------------------------------ records
 
@@ -294,6 +338,8 @@ func fillCatalogIDs(r *rand.Rand, v reflect.Value, depth int) {
 			id := r.IntN(40)
 			if r.IntN(25) == 0 {
 				id = -1
+			} else if r.IntN(10) == 0 {
+				id = 100 + r.IntN(400)
 			}
 			v.Field(0).SetInt(int64(id))
 			return
@@ -1174,8 +1220,15 @@ func perturb(r *rand.Rand, v any, depth int) any {
 
 // ------------------------------------------------------------------ C07: flush thresholds vs retracted members
 
+// nullM marshals as null by its own method: omitempty learns that only after the fact
+type nullM struct{}
+
+func (nullM) MarshalJSON() ([]byte, error) { return []byte("null"), nil }
+
 type sweepT struct {
 	Pad  string
+	UN   nullM           `json:",omitempty"`
+	NN   **int           `json:",omitempty"`
 	P    *[]int          `json:",omitempty"`
 	Q    *[0]int         `json:",omitempty"`
 	I    any             `json:",omitempty"`
@@ -1183,6 +1236,7 @@ type sweepT struct {
 	S    *string         `json:",omitempty"`
 	N    *int            `json:",omitempty"`
 	E    struct{}        `json:",omitempty"`
+	IN   any             `json:",omitempty"`
 	Keep []int           `json:",omitempty"`
 	Tail int
 }
@@ -1205,7 +1259,8 @@ func c07SweepExec(c *arshalCase) {
 	L := int(c.Seed[0])
 	variant := int(c.Seed[1])
 	empty, emptyStr, emptyMap := []int{}, "", map[string]int{}
-	v := sweepT{Pad: strings.Repeat("x", L), P: &empty, Q: &[0]int{}, I: []int{}, M: &emptyMap, S: &emptyStr, Tail: 7}
+	v := sweepT{Pad: strings.Repeat("x", L), P: &empty, Q: &[0]int{}, I: []int{}, M: &emptyMap, S: &emptyStr, Tail: 7,
+		NN: new(*int), IN: (*int)(nil)} // null behind a non-nil pointer / inside a non-nil interface
 	switch variant % 4 {
 	case 1:
 		v.I = map[string]any{}
